@@ -775,14 +775,14 @@ func parseField(v reflect.Value, bytes []byte, initOffset int, params fieldParam
 		} else if params.private {
 			expectedClass = ClassPrivate
 		}
-		if offset == len(bytes) {
-			err = StructuralError{"explicit tag has no child"}
-			return
-		}
 		if t.class == expectedClass && t.tag == *params.tag && (t.length == 0 || t.isCompound) {
 			if fieldType == rawValueType {
 				// The inner element should not be parsed for RawValues.
 			} else if t.length > 0 {
+				if offset == len(bytes) {
+					err = StructuralError{"explicit tag has no child"}
+					return
+				}
 				elemOffset = offset
 				t, offset, err = parseTagAndLength(bytes, offset)
 				if err != nil {
